@@ -494,6 +494,15 @@ func ruleOwnGoroutine(c *Ctx, r *R, op ownedParam, key string, uses []ownUse) {
 				if cal := x.Call.StaticCallee(); cal != nil && fname(cal) == "Go" && cal.Pkg != nil && strings.HasSuffix(cal.Pkg.Pkg.Path(), "errgroup") {
 					started = "errgroup"
 					goInstr = x
+				} else if cal := staticCallee(&x.Call); cal != nil && cal.Blocks != nil && cal.Parent() == nil {
+					// handed to a self-accounting launcher (out.spawn(func() { … })): wg.Done() is deferred by the launcher's
+					// goroutine before the literal runs, so it follows the literal's own deferred Close
+					for ai, a := range x.Call.Args {
+						if a == ssa.Value(mc) && goLauncher(cal, ai) {
+							started = "launcher"
+							goInstr = x
+						}
+					}
 				}
 			}
 		}
